@@ -16,6 +16,9 @@
 #define HAS_STEP   (this->_expStp != 0)
 /* invariant of the loop's private record between two steps */
 #define RT_INV(d)  ((d)->min <= (d)->max && (d)->step != 0 && (d)->step != INT64_MIN_ && (d)->iterator == &g_iter_slot)
+/* the next value, over the mathematical integers, has passed the limit in the direction of travel */
+#define NEXT_MATH ((__int128)__CPROVER_old(g_iter_slot._value.i) + (__int128)__CPROVER_old(RTD->step))
+#define PAST_LIMIT ((__CPROVER_old(RTD->step) > 0 && NEXT_MATH > (__int128)__CPROVER_old(RTD->max)) || (__CPROVER_old(RTD->step) < 0 && NEXT_MATH < (__int128)__CPROVER_old(RTD->min)))
 #define B  V_I(A1)
 #define E  V_I(A2)
 #define S  (HAS_STEP ? V_I(A3) : 1l)
@@ -27,7 +30,10 @@ const struct Statement *_ZNK4bloc12FORStatement4doitERNS_7ContextE(struct FORSta
 __CPROVER_requires(IS_FRESH(this, sizeof(*this)) && IS_FRESH(ctx, sizeof(*ctx)) && IS_FRESH(ctx->_root, sizeof(struct Context)))
 __CPROVER_requires(IS_FRESH(this->_var, sizeof(struct VariableExpression)) && IS_FRESH(this->_expBeg, sizeof(struct Expression)) && IS_FRESH(this->_expEnd, sizeof(struct Expression)) && IS_FRESH(this->_exec, sizeof(struct Executable)))
 __CPROVER_requires(this->_expStp != 0 ==> IS_FRESH(this->_expStp, sizeof(struct Expression)))
-__CPROVER_requires(this->_order <= ORDER_DESC)
+__CPROVER_requires(INPUT_STATE(g_ctl_depth, g_ctl_top_stmt, g_ctl_top_data, VALUE_FIELDS(&g_iter_slot), g_symid, g_the_symbol._safety))
+__CPROVER_requires(this->_order <= ORDER_DESC && this->_var->_id == g_symid)
+/* the statement list is well formed: the successor is another statement */
+__CPROVER_requires(NEXT != (const struct Statement *)this)
 __CPROVER_requires(__exc == 0 && g_eval_n == 0 && __caught_n == 0 && GLOBALS_PINNED && g_ctl_depth >= 0 && g_ctl_depth < 1000 && g_ctl_pushes == 0 && g_ctl_pops == 0 && g_run_count == 0 && g_store_calls == 0)
 /* on re-entry the top of the control stack is this loop's record, in the state the previous step left it;
  * the control variable is type safe (an integer), its value and nullness are whatever the body made them */
@@ -53,13 +59,13 @@ PROP(C06) __CPROVER_ensures((!WAS_REENTRY && BOUNDS_OK && DIRECTION_MET && OK) =
 /* ---- re-entry: advance by the signed step, leave when the next value is outside [min, max] -- decided
  * over the mathematical integers, so the control variable never wraps around ---- */
 PROP(C06) __CPROVER_ensures((WAS_REENTRY && __CPROVER_old(!V_ISNULL(&g_iter_slot)) &&
-      ((__int128)__CPROVER_old(g_iter_slot._value.i) + (__int128)__CPROVER_old(RTD->step) > (__int128)__CPROVER_old(RTD->max) ||
-       (__int128)__CPROVER_old(g_iter_slot._value.i) + (__int128)__CPROVER_old(RTD->step) < (__int128)__CPROVER_old(RTD->min))) ==>
+      PAST_LIMIT) ==>
      (OK && RET == NEXT && g_ctl_pops == 1 && g_ctl_popped_data == __CPROVER_old(g_ctl_top_data) && g_run_count == 0 && g_ctl_depth == __CPROVER_old(g_ctl_depth) - 1))
 PROP(C06) __CPROVER_ensures((WAS_REENTRY && __CPROVER_old(!V_ISNULL(&g_iter_slot)) &&
-      !((__int128)__CPROVER_old(g_iter_slot._value.i) + (__int128)__CPROVER_old(RTD->step) > (__int128)__CPROVER_old(RTD->max) ||
-        (__int128)__CPROVER_old(g_iter_slot._value.i) + (__int128)__CPROVER_old(RTD->step) < (__int128)__CPROVER_old(RTD->min))) ==>
-     (g_run_count == 1))
+      !PAST_LIMIT) ==>
+     (g_run_count == 1 && (__int128)__CPROVER_old(g_iter_slot._value.i) + (__int128)__CPROVER_old(RTD->step) == (__int128)g_iter_at_run))
+/* a control variable that the body set to null is a BLOC error, not a crash */
+PROP(C06) __CPROVER_ensures((WAS_REENTRY && __CPROVER_old(V_ISNULL(&g_iter_slot))) ==> (THROWN_RT(EXC_RT_NOT_INTEGER) && g_run_count == 0))
 /* ---- after the body (either entry): continue looping, or leave through break / return ---- */
 PROP(C06) __CPROVER_ensures((OK && g_run_count == 1 && !(ctx->_breakCondition || ctx->_continueCondition || ctx->_returnCondition || ctx->_root->_returnCondition)) ==> (RET == (const struct Statement *)this || g_ctl_pops == 1))
 PROP(C06) __CPROVER_ensures((OK && g_run_count == 1 && RET == (const struct Statement *)this) ==> (g_ctl_pops == 0 && ctx->_continueCondition == 0 && g_ctl_top_stmt == SELF && RT_INV(RTD)))
